@@ -19,7 +19,7 @@ impl Compiler {
         ensures
             r is Ok ==> hstep(old(self).height@, final(self).height@, 1),
             //@VACUITY
-            sym_wf(final(self).symbols),
+            sym_wf(final(self).symbols), sym_globals_kept(old(self).symbols, final(self).symbols),
             sym_resolve(old(self).symbols, name@) is None ==> (r matches Err(Error::ReferenceError(_)) && final(self).instructions@ == old(self).instructions@),
             sym_resolve(old(self).symbols, name@) is Some ==> ({
                 let sym = sym_resolve(old(self).symbols, name@)->Some_0;
@@ -45,7 +45,7 @@ impl Compiler {
         ensures
             r is Ok ==> hstep(old(self).height@, final(self).height@, 0),
             //@VACUITY
-            sym_wf(final(self).symbols),
+            sym_wf(final(self).symbols), sym_globals_kept(old(self).symbols, final(self).symbols),
             r is Ok ==> ({
                 let sym = sym_define_symbol(old(self).symbols, name@);
                 let k = old(self).log@.len() as int;
@@ -81,7 +81,7 @@ impl Compiler {
         ensures
             r is Ok ==> hstep(old(self).height@, final(self).height@, 1),
             //@VACUITY
-            sym_wf(final(self).symbols),
+            sym_wf(final(self).symbols), sym_globals_kept(old(self).symbols, final(self).symbols),
             (**left matches Expr::Identifier(name) && sym_resolve(old(self).symbols, name@) is None) ==> (r matches Err(Error::ReferenceError(_)) && final(self).instructions@ == old(self).instructions@),
             (r is Ok && **left matches Expr::Identifier(name)) ==> ({
                 let sym = sym_resolve(old(self).symbols, (**left)->Identifier_0@)->Some_0;
